@@ -84,7 +84,22 @@ Fixpoint steps_ok (seen : list Z) (pop : list Z) (steps obs : list tree) : optio
   | _, _ => None
   end.
 
-Definition judge (t : tree) : option (list Z) :=
+(* BULK steps (mode 400 + T): a population of n individuals (genomes 0..n-1) stepped once; the harness reduces the log to
+   counts.  What is demanded is what step_ok demands of the full log, expressed on the counts: the population afterwards
+   has the old size and is the children (success) / the old population (failure); every call saw the old population; the
+   calls drew pairwise distinct (word1, word2) pairs; a success made exactly n calls and n children, a failure is the
+   injected one, made exactly one child fewer than calls, and (serial) stopped at the failing call. *)
+Definition bulk_ok (mode n fail_at : Z) (res : tree) (flen fexp calls saw pairs nchildren : Z) : bool :=
+  let injected := (0 <=? fail_at) && (fail_at <? n) in
+  (flen =? n) && (fexp =? 1) && (saw =? 1) && (pairs =? calls) &&
+  match res with
+  | L [A 0] => negb injected && (calls =? n) && (nchildren =? n)
+  | L [A 1; A e] => injected && (e =? fail_at) && (nchildren =? calls - 1)
+                    && (if mode =? 0 then calls =? fail_at + 1 else calls <=? n)
+  | _ => false
+  end.
+
+Definition judge_general (t : tree) : option (list Z) :=
   match t with
   | L [L [A mode; pop; A fail_at]; L [res; final; lg]] =>
     olet pop := tlist tZ pop in
@@ -99,4 +114,14 @@ Definition judge (t : tree) : option (list Z) :=
     Some [if ok && rest then 0 else 2; if saw_old then 0 else 1; if fresh then 0 else 1]
   | L [_; L [A (-1)]] => Some [2; 9]
   | _ => None
+  end.
+
+Definition judge (t : tree) : option (list Z) :=
+  match t with
+  | L [L [A mode; L [A n]; A fail_at]; L [res; L [A flen; A fexp]; L [A calls; A saw; A pairs; A nchildren]]] =>
+    if (400 <=? mode) && (mode <? 500) && (0 <=? n)
+    then Some [if bulk_ok (mode - 400) n fail_at res flen fexp calls saw pairs nchildren then 0 else 2;
+               if saw =? 1 then 0 else 1; if pairs =? calls then 0 else 1]
+    else judge_general t
+  | _ => judge_general t
   end.
